@@ -61,6 +61,22 @@ def c04(A):
                               and any(p.get("t") == "CONNACK" and p.get("rc") for p in A.inbound_pkts(e))]
             idle = (not prev_connects) or (refused_before and prev_connects[-1]["i"] < refused_before[-1]["i"]
                                            and not _accepted_between(A, c, prev_connects[-1]["i"], call["i"]))
+            if c.lost_at(call["i"]) and call["phase"] == "lost" and "did" in ret and not A.reqs[ret["did"]].called_at_return:
+                # connect() on the protocol object of a lost connection ("after any connection loss the
+                # protocol is idle"): nothing can answer, so the Deferred must fail exactly once, no later
+                # than its own deadline.  (What is written to the dead transport is not judged here.)
+                r = A.reqs[ret["did"]]
+                dl = call["t"] + (call["info"]["keepalive"] or 10)
+                if t_end is not None and dl + late <= t_end:
+                    o.dec("connect_on_lost_protocol")
+                    if not r.fires:
+                        o.bad("connect-deferred-never-fires/on-lost-protocol", "connect() on an idle-again protocol: Deferred never fires", call)
+                    elif len(r.fires) > 1 or r.fires[0]["ok"] or r.fires[0]["t"] > dl + late + 2e-6:
+                        o.bad("connect-on-lost-protocol-outcome", "connect() on an idle-again protocol: Deferred %s at t=%.3f (deadline %.3f)"
+                              % ("succeeded" if r.fires[0]["ok"] else "failed", r.fires[0]["t"], dl), r.fires[0])
+                    elif abs(r.fires[0]["t"] - (dl + late)) > 2e-6 and r.fires[0]["etype"] == "MQTTTimeoutError":
+                        o.bad("timeout-time/on-lost-protocol", "CONNACK timeout fired at t=%.3f, expected %.3f" % (r.fires[0]["t"], dl), r.fires[0])
+                continue
             if not idle or c.lost_at(call["i"]) or call["phase"] != "open":
                 continue          # not an idle protocol: C14's business
             o.dec("connect_calls")
